@@ -687,6 +687,8 @@ def correspondence(rep, rng, tier):
             seen.add(k)
             uniq.append(b)
     rep.broken[:] = uniq
+    from .. import decoders as _D
+    _D.late_render_section(rep, rng, tier, 'C11')       # what a trace shows is its own word, whatever was decoded after it
     from .. import scenhist
     scenhist.section(rep, rng, tier, 'C11')
     scenhist.parser_history_section(rep, rng, tier, 'C11')
@@ -704,6 +706,13 @@ def replay(path):
     if rp.get('section') in ('scenario-history', 'parser-history'):
         from .. import scenhist
         bad, lines = (scenhist.replay if rp['section'] == 'scenario-history' else scenhist.replay_parser_history)(rp)
+        print('\n'.join(lines))
+        if bad:
+            print(f'VIOLATION property=C11 replay={path}')
+        return 1 if bad else 0
+    if rp.get('section') == 'late-render':
+        from .. import decoders as _D
+        bad, lines = _D.replay_late_render(rp)
         print('\n'.join(lines))
         if bad:
             print(f'VIOLATION property=C11 replay={path}')
